@@ -499,7 +499,178 @@ def bounded_nesting():
     return {"evaluations": ev, "failures": failures}
 
 
+# ------------------------------------------------------------------------------------------ operators leave their operands alone
+def operator_frame_obligations(run):
+    """the preparation operators (+, *, /, reflected forms) write nothing reachable from their operands (frames); together with
+    the algebra obligations this makes the denotation of an expression independent of how often an operand is re-used"""
+    from vf.frames import Analysis
+
+    A = Analysis(REPO)
+    rel = "piquasso/instructions/preparations.py"
+    found = 0
+    for fid, f in sorted(A.funcs.items()):
+        if not fid.startswith(rel + ":") or fid.rsplit(".", 1)[-1] not in ("__add__", "__radd__", "__mul__", "__rmul__", "__truediv__", "__neg__", "__sub__"):
+            continue
+        found += 1
+        oname = f"C18/algebra/operands-not-modified/{fid.split(':')[1]}"
+        bad = [w for w in f.writes.values() if w.root in ("self", "other", "coefficient")]
+        if not bad:
+            run.discharged(oname, "frames", "provenance-analysis", 0.0, function=fid)
+        else:
+            rep = bounded_operand_reuse()
+            run.failed(oname, "frames", "provenance-analysis",
+                       what=f"{fid.split(':')[1]} may write " + ", ".join(sorted({f'{w.root}{w.path} (line {w.lineno})' for w in bad}))
+                            + " of an operand: an operand that takes part in two expressions changes between them",
+                       counterexample={"writes": [w.to_json() for w in bad]}, replay={"kind": "operand-reuse"},
+                       reproduced=rep.get("reproduced", False), observed=rep)
+    if not found:
+        run.broken_ob("C18/algebra/operands-not-modified", "no operator method found in preparations.py: contract no longer binds")
+
+
+def bounded_operand_reuse():
+    """the same operand objects (coefficient 1 and others) used in several groupings: operands unchanged, all groupings equal"""
+    import copy
+
+    import piquasso as pq
+
+    bad, ev = [], 0
+    for c in (1.0, 1, 0.5, 1 + 0j):
+        amp = {(1, 0): 0.6, (0, 1): 0.8j}
+        F = pq.FockStateVector(fock_amplitude_map=amp, coefficient=c)
+        a, b = pq.NumberState([2, 0], coefficient=0.3), pq.NumberState([0, 1], coefficient=-0.2)
+        snap = (copy.deepcopy(amp), copy.deepcopy(F.params), copy.deepcopy(a.params), copy.deepcopy(b.params))
+        exprs = {"F+a+b": lambda: F + a + b, "(F+b)+a": lambda: (F + b) + a, "a+(b+F)": lambda: a + (b + F), "F+(a+b)": lambda: F + (a + b),
+                 "(F+a)*2/2+b": lambda: (F + a) * 2 / 2 + b, "F+a+b again": lambda: F + a + b}
+        ref = None
+        for name, fn in exprs.items():
+            try:
+                d = {k: complex(v.const_value()) if hasattr(v, "const_value") else complex(v) for k, v in den(fn()).items()}
+            except Exception as e:      # noqa: BLE001
+                bad.append({"coefficient": repr(c), "expression": name, "error": f"{type(e).__name__}: {e}"[:120]})
+                continue
+            ev += 1
+            if ref is None:
+                ref = d
+            elif set(d) != set(ref) or any(abs(d[k] - ref[k]) > 1e-12 for k in ref):
+                bad.append({"coefficient": repr(c), "expression": name, "denotation": repr(d), "first": repr(ref)})
+            now = (amp, F.params, a.params, b.params)
+            if repr(now) != repr(snap):
+                bad.append({"coefficient": repr(c), "expression": name, "issue": "an operand (or the user's amplitude dict) was modified"})
+                break
+    # amplitudes held in mutable containers (0-d arrays): a scaled RIGHT operand must not be scaled in place
+    import numpy as np
+    G = pq.FockStateVector(fock_amplitude_map={(1, 0): np.array(0.5), (0, 1): np.array(0.25j)}, coefficient=2.0)
+    F0 = pq.FockStateVector(fock_amplitude_map={(0, 1): 1.0})
+    first = {k: complex(v) for k, v in (F0 + G).params["fock_amplitude_map"].items()}
+    second = {k: complex(v) for k, v in (F0 + G).params["fock_amplitude_map"].items()}
+    ev += 2
+    if first != second or complex(G.params["fock_amplitude_map"][(1, 0)]) != 0.5:
+        bad.append({"expression": "F + G twice, G with 0-d array amplitudes and coefficient 2", "first": repr(first), "second": repr(second),
+                    "G_after": repr(G.params["fock_amplitude_map"])})
+    return {"failures": bad, "evaluations": ev, "reproduced": bool(bad)}
+
+
+# ------------------------------------------------------------------------------------------ Config in generated code
+def config_obligations(run):
+    """as_code emits `config=...` only when `simulator.config != Config()` and then prints Config._as_code(): for the
+    generated code to rebuild the same configuration, BOTH must take every constructor parameter into account.
+    Decided on the AST of piquasso/api/config.py: for every keyword parameter p of Config.__init__, the attribute(s) that
+    __init__ derives from p occur in __eq__ (on self and other) and _as_code has a `non_default_params["p"]` entry."""
+    import time as _t
+    from vf.cfg import find_function
+    t0 = _t.time()
+    rel = "piquasso/api/config.py"
+    oname = "C18/config/eq-and-as_code-cover-every-constructor-parameter"
+    tree = ast.parse(open(os.path.join(REPO, rel)).read())
+    try:
+        init, eq, code = (find_function(tree, "Config." + n) for n in ("__init__", "__eq__", "_as_code"))
+    except Exception as e:      # noqa: BLE001
+        run.undecided_ob(oname, "frames", "ast-structure", f"Config methods not found: {e}")
+        return
+    params = [a.arg for a in init.args.kwonlyargs + init.args.args if a.arg != "self"]
+    stores = {}        # parameter -> attributes assigned from an expression mentioning it
+    for st_ in ast.walk(init):
+        if isinstance(st_, ast.Assign) and len(st_.targets) == 1 and isinstance(st_.targets[0], ast.Attribute) \
+                and isinstance(st_.targets[0].value, ast.Name) and st_.targets[0].value.id == "self":
+            for nm in {n.id for n in ast.walk(st_.value) if isinstance(n, ast.Name)}:
+                if nm in params:
+                    stores.setdefault(nm, set()).add(st_.targets[0].attr)
+    eq_attrs = {n.attr for n in ast.walk(eq) if isinstance(n, ast.Attribute)} | {
+        n.value for n in ast.walk(eq) if isinstance(n, ast.Constant) and isinstance(n.value, str)}
+    code_keys = {n.slice.value for n in ast.walk(code) if isinstance(n, ast.Subscript) and isinstance(n.value, ast.Name)
+                 and n.value.id == "non_default_params" and isinstance(n.slice, ast.Constant)}
+    missing = []
+    for p_ in params:
+        if not stores.get(p_):
+            missing.append(f"{p_}: not stored by __init__")
+        elif not (stores[p_] & eq_attrs):
+            missing.append(f"{p_}: none of {sorted(stores[p_])} is compared by __eq__")
+        if p_ not in code_keys:
+            missing.append(f"{p_}: not emitted by _as_code")
+    if not params:
+        run.broken_ob(oname, "Config.__init__ has no parameters: contract no longer binds")
+    elif missing:
+        rep = replay_config_roundtrip()
+        run.failed(oname, "frames", "ast-structure", what="Config.__eq__ / Config._as_code ignore a constructor parameter: " + "; ".join(missing),
+                   counterexample={"missing": missing}, replay={"kind": "config"}, reproduced=rep.get("reproduced", False), observed=rep,
+                   seconds=_t.time() - t0)
+    else:
+        run.discharged(oname, "frames", "ast-structure", _t.time() - t0, function=f"{rel}:Config.__eq__",
+                       sample={"parameters": params})
+
+
+CONFIG_VALUES = dict(cutoff=6, dtype="np.float32", measurement_cutoff=7, hbar=1.5, seed_sequence=123, use_torontonian=True, cache_size=5,
+                     validate=False, use_dask=True, max_sample_generation_trials=7)
+
+
+def replay_config_roundtrip():
+    """a simulator whose Config differs from the default in exactly ONE parameter, through pq.as_code + exec"""
+    import inspect
+
+    import numpy as np
+    import piquasso as pq
+
+    bad, ev = [], 0
+    for p_ in inspect.signature(pq.Config.__init__).parameters:
+        if p_ == "self":
+            continue
+        if p_ not in CONFIG_VALUES:
+            bad.append({"parameter": p_, "issue": "no test value known for this (new) Config parameter"})
+            continue
+        v = np.float32 if p_ == "dtype" else CONFIG_VALUES[p_]
+        cfg = pq.Config(**{p_: v})
+        ev += 1
+        if cfg == pq.Config():
+            bad.append({"parameter": p_, "issue": "Config(%s=%r) == Config()" % (p_, v)})
+        sim = pq.PureFockSimulator(d=2, config=cfg)
+        ns = {}
+        try:
+            exec(pq.as_code(pq.Program(instructions=[pq.Vacuum()]), sim).split("result = simulator.execute")[0], ns)
+            got = getattr(ns["simulator"].config, p_ if p_ != "seed_sequence" else "_original_seed_sequence")
+            if got != v:
+                bad.append({"parameter": p_, "sent": repr(v), "received": repr(got), "via": "as_code"})
+        except Exception as e:      # noqa: BLE001
+            bad.append({"parameter": p_, "error": f"{type(e).__name__}: {e}"[:160]})
+    return {"failures": bad, "evaluations": ev, "reproduced": bool(bad)}
+
+
 def check(run):
+    config_obligations(run)
+    cr = replay_config_roundtrip()
+    if cr["failures"]:
+        run.failed("C18/bounded/round-trip/config", "rtc", "enumeration", what=f"as_code loses a Config parameter: {cr['failures'][0]}",
+                   counterexample=cr["failures"][0], replay={"kind": "config"}, reproduced=True, observed=cr)
+    run.bounded_result("C18/bounded/config-one-parameter-at-a-time-through-as_code", domain="every Config constructor parameter set to a "
+                       "non-default value, alone", bound="exec of the generated code", evaluations=cr["evaluations"],
+                       distinct=cr["evaluations"], failures=len(cr["failures"]))
+    operator_frame_obligations(run)
+    orr = bounded_operand_reuse()
+    if orr["failures"]:
+        run.failed("C18/bounded/operand-reuse", "rtc", "enumeration", what=f"re-using an operand changes the result: {orr['failures'][0]}",
+                   counterexample=orr["failures"][0], replay={"kind": "operand-reuse"}, reproduced=True, observed=orr)
+    run.bounded_result("C18/bounded/operands-reused-across-groupings", domain="FockStateVector with coefficient 1 / 1.0 / 0.5 / (1+0j) and two "
+                       "NumberStates in 6 groupings of the same objects", bound="operands and the user's dict compared before/after",
+                       evaluations=orr["evaluations"], distinct=orr["evaluations"], failures=len(orr["failures"]))
     n_trees = algebra_obligations(run)
     run.notes.append(f"{n_trees} expression trees evaluated on the real operator methods with symbolic coefficients")
     blackbird_obligations(run)
@@ -538,6 +709,10 @@ def replay(path):
     elif kind == "nesting":
         out = bounded_nesting()
         out["reproduced"] = bool(out["failures"])
+    elif kind == "config":
+        out = replay_config_roundtrip()
+    elif kind == "operand-reuse":
+        out = bounded_operand_reuse()
     else:
         out = bounded_roundtrips()
         out["reproduced"] = bool(out["failures"])
